@@ -31,6 +31,7 @@ DECIDED = [
     "PROV-2 every value stored to _id is str(uuid.UUID(.)) or str(uuid.uuid4()); only __init__ and new_id store it; malformed ids are replaced by the constructors and rejected by new_id",
     "SIB-1 the id handling of Document, Section and Property has the same shape",
     "PTR-1 remove() clears the parent pointer only after the list removal succeeded (the clash test of the name setters looks the siblings up through the parent pointer)",
+    "INV-I the tree invariant of C03 (a listed child points to its container) holds for every owner function: the clash tests of the name setters find the siblings through the parent pointer",
     "IDENT-1 / OWN-1b shared with C03 (identity based removal; inherited list mutators)",
 ]
 NOT_DECIDED = ["__contains__ (name or deep ==) versus plain name equality", "uuid.UUID normalisation (library)"]
@@ -309,6 +310,12 @@ def run(prog, rep):
     body = [s for s in rm.node.body if not (isinstance(s, ast.Expr) and isinstance(s.value, ast.Constant))]
     rep.check(len(body) == 1 and isinstance(body[0], ast.Delete) and "index(" in unparse(body[0]), "IDENT-1", "SmartList.remove via index", "ok",
               "SmartList.remove no longer goes through the identity based index", rm.where)
+    # ----------------------------------------------------------------- INV-I
+    from ..report import import_verdicts
+    import_verdicts(prog, rep, "C03", ("PAIR-1", "DOM-1", "OWN-1"), "INV-I",
+                    "the name setters look the siblings up through <obj>.parent: every function that lists a child must leave its parent "
+                    "pointer consistent")
+
     # ----------------------------------------------------------------- PTR-1
     rep.rule("PTR-1", "in Sectionable.remove / BaseSection.remove every store `<child>._parent = None` is dominated by the completed "
                       "removal call <list>.remove(<child>) of the same child (a refused remove - the object is not a child here - "
@@ -344,9 +351,9 @@ def _id_shape(value):
         return None
     inner = value.args[0]
     fn = unparse(inner.func).split(".")[-1]
-    if fn == "uuid4" and not inner.args:
+    if fn == "uuid4" and not inner.args and not inner.keywords:
         return ("fresh",)
-    if fn == "UUID" and len(inner.args) == 1:
+    if fn == "UUID" and len(inner.args) == 1 and not inner.keywords:       # UUID(text, version=n) rewrites the version bits
         return ("parse", unparse(inner.args[0]))
     return None
 
